@@ -369,3 +369,7 @@ def units(tier):
 
 def selftest():
     return stats.selftest()
+
+
+# dimensions added after the fourth and fifth round of seeded changes (DESIGN.md 8.3, 8.4); part of the rule reported in the evidence
+RULE += ' Added with the fourth and fifth round of seeded changes: a run() on sets of a dtype the accumulation kernel refuses (float16, complex64, >i2, >f4) placed before a run of the history.'
